@@ -1,4 +1,6 @@
 /- C12: signature model (Props/C12.lean) + the directory tasks as an engine client, rerun-iff over accepted
-engine traces (Props/C12Engine.lean). -/
+engine traces (Props/C12Engine.lean) + the listing's validity made explicit: re-listing check versus trusting the
+directory's stat record (Props/C12Stat.lean). -/
 import LLBuild.Props.C12
 import LLBuild.Props.C12Engine
+import LLBuild.Props.C12Stat
